@@ -572,6 +572,13 @@ DESCRIPTOR_SCENARIOS = [
     ('missing-input', 'select a1', 'missing-input'),
     ('double-unnest', 'select UNNEST([1]), UNNEST([2])', 'parsing'),
     ('strict-left-join-failure', 'select a1 strict left join jn_1.csv on a1 == b1', 'runtime'),
+    # the join table named by an alias that ~/.rbql_table_names resolves (that index file is one more file the front-end opens)
+    ('alias-join', 'select a1, b2 join myalias on a1 == b1', 'ok'),
+    ('alias-join-runtime-error', 'select int(a2), b2 join myalias on a1 == b1', 'runtime'),
+    ('alias-join-parse-error', 'select a1, b2 join myalias on a1 == b.nosuch', 'parsing*'),
+    ('alias-unknown', 'select a1 join otheralias on a1 == b1', 'io'),
+    ('alias-join-bad-bytes', 'select a1, b1 join badalias on a1 == b1', 'io'),
+    ('alias-last-line-of-index', 'select a1, b2 join lastalias on a1 == b1', 'ok'),
     ('output-in-missing-directory', 'select a1, a2', 'bad-output:missing-dir'),
     ('output-path-is-a-directory', 'select a1, b2 join jn_1.csv on a1 == b1', 'bad-output:is-dir'),
     ('output-in-missing-directory-failing-query', 'select int(a2)', 'bad-output:missing-dir'),
@@ -597,6 +604,11 @@ def leg_descriptors(ns, res, spec):
         conn.executemany('INSERT INTO t VALUES (?, ?)', [('a', '1'), ('b', 'x')])
         conn.commit()
         conn.close()
+        old_home = os.environ.get('HOME')
+        os.environ['HOME'] = d
+        with open(os.path.join(d, '.rbql_table_names'), 'w') as f:
+            f.write(''.join('unused%d\t/nowhere/%d.csv\n' % (i, i) for i in range(5)) + 'myalias\t%s\nbadalias\t%s\n' % (os.path.join(d, 'jn_1.csv'), os.path.join(d, 'jn_bad.csv'))
+                    + ''.join('more%d\t/nowhere/m%d.csv\n' % (i, i) for i in range(40)) + 'lastalias\t%s' % os.path.join(d, 'jn_1.csv'))
         for rep in range(spec['n']):
             for name, qtext, expect in DESCRIPTOR_SCENARIOS:
                 for with_headers in (False, True):
@@ -669,6 +681,11 @@ def leg_descriptors(ns, res, spec):
         for mod in (ns.csv, ns.sqlite):
             if 'open' in vars(mod):
                 del mod.open
+        if 'old_home' in locals():
+            if old_home is None:
+                os.environ.pop('HOME', None)
+            else:
+                os.environ['HOME'] = old_home
         shutil.rmtree(d, ignore_errors=True)
 
 
